@@ -389,7 +389,9 @@ def check_property(D, w, V, k, which, sa_orth, lam_true, tol, check_sel=True):
         return [f"shape: {w.shape[0]} values, vectors {V.shape}, expected {k} and {(n, k)}"], False
     scale = max(1.0, float(np.abs(D).max()))
     cn = np.linalg.norm(V, axis=0)
-    if cn.min() < 1e-12:
+    if k == 0:
+        return [], False
+    if not (cn.min() >= 1e-12):
         return ["a returned vector is zero"], False
     Vn = V / cn
     res = float(np.abs(D @ Vn - Vn * w[None, :]).max())
@@ -427,6 +429,8 @@ def run(ctx):
     rnd = ctx.rng
     mism, samples = [], []
     terms, meta = [], []          # QI cases
+    aterms = []                   # Auto-rule observations
+    eigmaxmin_checked = [0]
     pterms, pmeta = [], []        # power-iteration cases
     hist = {}
     near_tie = 0
@@ -490,7 +494,7 @@ def run(ctx):
         else:
             rule = "(RTri [" + ";".join("[" + ";".join(L.qic_exact(v[0], v[1]) for v in r) + "]" for r in c["A"]) + "] " + \
                    ("true" if not cplx_of(c["dt"]) or "eig_triangular_complex_drops_imag" in present else "false") + ")"
-        scale = max(1.0, float(np.abs(obs["V"]).max()), float(np.abs(D).max()))
+        scale = max(1.0, float(np.abs(obs["V"]).max(initial=0)), float(np.abs(D).max(initial=0)))
         tol2 = 0 if c["kind"] in ("ident", "diag") else (tol * 100 * scale) ** 2
         terms.append(f"mkecase {n} {rule} ({k}) {which} {L.qc_lit(tol2)} true {L.qvec(obs['w'])} {L.qmat(obs['V'])}")
         meta.append(dict(case=case_js, bad=bad, got=dict(w=np.asarray(obs["w"]).tolist(), V=np.asarray(obs["V"]).tolist())))
@@ -580,8 +584,23 @@ def run(ctx):
             oracle_viol.append(len(meta))
         # Eigh/Eig slice arrays (bit-exact); the Krylov rules slice a lazy product Q @ P, whose columns are then recomputed by a
         # different BLAS call: values must still agree to the last bit of the oracle up to 1e-12 (float64) / 1e-5 (float32)
-        ctol = 0 if eff in ("Eigh", "Eig") else ((1e-5 if f32 else 1e-12) * max(1.0, float(np.abs(oV).max()), float(np.abs(ow).max()))) ** 2
+        ctol = 0 if eff in ("Eigh", "Eig") else ((1e-5 if f32 else 1e-12) * max(1.0, float(np.abs(oV).max(initial=0)), float(np.abs(ow).max(initial=0)))) ** 2
         terms.append(f"mkecase {n} (ROracle {ow.shape[0]} {L.qvec(ow)} {L.qmat(oV)}) ({k}) {which} {L.qc_lit(ctol)} true {L.qvec(w)} {L.qmat(V)}")
+        if alg is None or alg["cls"] == "Auto":
+            aterms.append(f"mkacase {'true' if c['sa'] else 'false'} true ({k}) {which} A{eff}")
+        # eigmax / eigmin agree with eig(A, 1, LM|SM)[0][0] on the same algorithm
+        if k == 1 and alg is not None:
+            from cola.linalg import eigmax as _emax, eigmin as _emin
+            try:
+                if alg["cls"] == "LOBPCG":
+                    np.random.seed(12345)
+                ev = (_emax if which == "LM" else _emin)(A, make_alg(alg))
+                if not (complex(ev) == complex(np.asarray(w)[0])):
+                    mism.append(dict(oracle_fail=False, case=case_js, failed_clauses=[f"eig{'max' if which == 'LM' else 'min'} = {ev} differs from eig(A,1,{which})[0][0] = {np.asarray(w)[0]}"]))
+                else:
+                    eigmaxmin_checked[0] += 1
+            except Exception as e:
+                mism.append(dict(oracle_fail=True, case=case_js, got=f"eigmax/eigmin: {type(e).__name__}: {str(e)[:160]}", failed_clauses=["raised"]))
         meta.append(dict(case=case_js, bad=bad, got=dict(w=np.asarray(w).tolist())))
 
     # ---------------- argument edge: k = -1 is refused, k = 0 / k > n follow Python slicing
@@ -658,6 +677,8 @@ def run(ctx):
         if bad:
             oracle_viol.append(("p", len(pmeta)))
         pterms.append(f"mkpcase {L.fmat(c['M'])} {L.hexf(tolv)} {maxit} {L.fvec(v0)} {L.hexf(e)} {iters} {L.fvec(v)}")
+        if c["how"] == "auto":
+            aterms.append(f"mkacase {'true' if c['sa'] else 'false'} true (1) LM APower")
         pmeta.append(dict(case=case_js, bad=bad, got=dict(eig=float(e), iterations=iters)))
 
     # ---------------- in-Coq comparison
@@ -672,6 +693,12 @@ def run(ctx):
     for i, m in enumerate(meta):
         if i in fails or m["bad"]:
             mism.append(dict(oracle_fail=bool(m["bad"]), case=m["case"], got=m["got"], failed_clauses=m["bad"], model_disagrees=(i in fails)))
+    if aterms:
+        outs, shard = L.run_shards("c10_a", HEADER, "acase", aterms, "Eval vm_compute in (failing_from check_acase 0 cases).", shard=300)
+        for si, (rc, out) in enumerate(outs):
+            lst = L.parse_natlist(out) if rc == 0 else None
+            if lst is None or lst:
+                mism.append(dict(oracle_fail=False, harness_error=f"Auto table: shard {si} rc={rc} failing={lst}\n{out[-800:]}"))
     pfails, pties = set(), set()
     if pterms:
         outs, shard = L.run_shards("c10_p", HEADER, "pcase", pterms, "Eval vm_compute in (codes_from check_pcase 0 cases).", shard=100)
@@ -693,4 +720,5 @@ def run(ctx):
              "oracle output passed as exact rationals, model = slice, compared exactly; power iteration on PrimFloat; distinct by case hash (all have n>=1 and a non-trivial spectrum)",
         samples=samples, mismatches=mism, findings=fnd,
         extra=dict(histogram=hist, near_tie=near_tie, skipped_spoiled_region=skipped_region, ritz_only_cases_below_n=below_n,
-                   qi_cases=len(terms), power_cases=len(pterms), power_near_tie=len(pties)))
+                   qi_cases=len(terms), power_cases=len(pterms), power_near_tie=len(pties),
+                   auto_rule_observations=len(aterms), eigmax_eigmin_checked=eigmaxmin_checked[0]))
